@@ -415,3 +415,60 @@ def response_contains_call_at(hctx, root_bb):
         if not term_in_all_paths(term, lambda s: norm(s) == want):
             return False
     return n > 0
+
+
+# --------------------------------------------------------------------------- token-factory roles (P12)
+
+
+def tf_messages(prog, hctx, env):
+    """token-factory message aggregates reachable (deep) from the handler, with bound terms:
+    list of dict(kind in mint|burn|create, sender, amount, denom, holder, root_bb, loc)."""
+    out = []
+    for c, path, bi, si, t in aggregates_deep(prog, hctx, lambda adt, var: adt.split("::")[-1] in ("MsgMint", "MsgBurn", "MsgCreateDenom") and "tokenfactory" in adt, env.depth):
+        kind = {"MsgMint": "mint", "MsgBurn": "burn", "MsgCreateDenom": "create"}[t[1].split("::")[-1]]
+        amount, denom = coin_parts(agg_field(t, "amount") or ("none",))
+        out.append({
+            "kind": kind, "sender": agg_field(t, "sender"), "amount": amount, "denom": denom,
+            "holder": agg_field(t, "mint_to_address") or agg_field(t, "burn_from_address"), "subdenom": agg_field(t, "subdenom"),
+            "root_bb": path[0][1] if path else bi, "loc": c.body.loc(bi, si), "adt": t[1], "term": t,
+        })
+    return out
+
+
+def lst_denom(prog, t):
+    return t is not None and loaded_field(prog, t, "config", ["liquid_stake_token_denom"], "staking")
+
+
+def ibc_denom(prog, t):
+    return t is not None and loaded_field(prog, t, "config", ["protocol_chain_config", "ibc_token_denom"], "staking")
+
+
+def recipient_term(prog, t):
+    """mint_to.unwrap_or(info.sender): Option::unwrap_or_else(msg.mint_to, || info.sender) or unwrap_or."""
+    if t is None or t[0] != "call":
+        return False
+    if t[1] == "std::option::Option::unwrap_or_else":
+        res = closure_result(prog, t[2][1])
+        return res is not None and is_sender(res) and _is_msg_field(t[2][0], "mint_to")
+    if t[1] == "std::option::Option::unwrap_or":
+        return is_sender(t[2][1]) and _is_msg_field(t[2][0], "mint_to")
+    return False
+
+
+def _is_msg_field(t, name):
+    return (t[0] == "field" and t[2] == name and t[1][0] == "variant") or (t[0] == "param" and len(t) > 2 and t[2] == name)
+
+
+def is_oracle_poster(prog, callterm):
+    """P12 role: a local function that constructs the Oracle::PostRates message."""
+    cb = _body_of_call(prog, callterm)
+    if cb is None:
+        return False
+    for k in reachable_bodies(prog, [cb.key]):
+        b = prog.bodies[k]
+        for blk in b.blocks:
+            for st in blk["stmts"]:
+                rv = st.get("rv") or {}
+                if rv.get("agg") == "adt" and rv["adt"].endswith("oracle::Oracle") and rv["variant"] == "PostRates":
+                    return True
+    return False
